@@ -33,6 +33,28 @@ def reset_exo_globals():
         getattr(NE, nm).clear()
     if "sym" in _base:
         Sym._unq_count = _base["sym"]
+    # content-keyed memo tables (functools.cache / lru_cache) inside exo: harmless
+    # semantically, but they change how many line events a call executes
+    import sys as _sys
+
+    for mname, mod in list(_sys.modules.items()):
+        if not (mname == "exo" or mname.startswith("exo.")) or mod is None:
+            continue
+        for obj in list(vars(mod).values()):
+            cc = getattr(obj, "cache_clear", None)
+            if callable(cc):
+                try:
+                    cc()
+                except Exception:
+                    pass
+            if isinstance(obj, type):
+                for sub in list(vars(obj).values()):
+                    cc = getattr(sub, "cache_clear", None)
+                    if callable(cc):
+                        try:
+                            cc()
+                        except Exception:
+                            pass
     # fresh z3 context: z3's verdict on hard (div/mod) queries otherwise depends
     # on everything the process asked before
     try:
